@@ -161,6 +161,13 @@ def step(sh: Shadow, i: int, op: dict[str, Any], r: dict[str, Any]) -> None:
         return
     if c not in sh.ctx:
         return
+    if k == "addtd" and op.get("enterSub") is not None and op["enterSub"] in sh.ctx and first == "ok":
+        y = sh.ctx[op["enterSub"]]      # entered by hand by the first half of the generator: current from now on
+        y["state"] = "open"
+        y["token"] = sh.cur.get(t)
+        sh.cur[t] = op["enterSub"]
+        if y["parent"] is not None and y["parent"] in sh.ctx:
+            sh.ctx[y["parent"]]["children"].add(op["enterSub"])
     x = sh.ctx[c]
     usable = x["state"] in ("open", "closing")
     if k == "parent":
@@ -425,7 +432,8 @@ def monitor_finish(sh: Shadow, i: int, op: dict[str, Any], r: dict[str, Any], x:
     if want is not None:
         got = sorted(s[s.index("[") + 1:-1] for s in results)
         if got != want:
-            sh.flag("C04", f"step {i}: lookups resumed after the generation returned {got}, expected {want}")
+            sh.flag("C04,C03", f"step {i}: lookups resumed after the generation returned {got}, expected {want} "
+                                  f"(every lookup gets what is registered under the pair it asked for)")
     prevn = x["gen_n"].setdefault(fid, n)
     if prevn != n:
         sh.flag("C04", f"step {i}: factory {fid} completed a second generation in context {c}")
